@@ -239,6 +239,75 @@ run_cmd do
             os.rename(tmp, exe)
         return exe
 
+    def objects(self, sources, flags=(), extra_inc=(), cxx='g++', std='c++17', tag='obj'):
+        """compile each TU of the *current* repo tree to an object file, cached by the hash of its
+        preprocessed text + flags (so an unchanged tree costs only preprocessing); parallel."""
+        from concurrent.futures import ThreadPoolExecutor
+        inc = ['-I' + os.path.join(REPO, 'include'), '-I' + os.path.join(REPO, 'src'),
+               '-I' + os.path.join(REPO, 'nl-writer2', 'include'), '-I' + os.path.join(VERIF, 'harness')] + ['-I' + i for i in extra_inc]
+        defs = ['-DMP_DATE=20240320', '-DMP_SYSINFO="Linux x86_64"', '-DMP_USE_ATOMIC', '-DMP_USE_HASH', '-DMP_USE_UNIQUE_PTR', '-DAMPL_MP_VERIF']
+        base = [cxx, '-std=' + std, '-w'] + defs + list(flags) + inc
+        odir = os.path.join(BUILD, 'obj')
+        os.makedirs(odir, exist_ok=True)
+
+        def one(src):
+            rc, out, err = sh(base + ['-E', '-P', src], timeout=900)
+            if rc != 0:
+                raise RuntimeError('preprocess failed for %s:\n%s' % (src, err[-3000:]))
+            h = hashlib.sha256((' '.join(base) + '\0' + out).encode()).hexdigest()[:20]
+            obj = os.path.join(odir, '%s-%s-%s.o' % (tag, os.path.basename(src).replace('.', '_'), h))
+            if not os.path.exists(obj):
+                tmp = obj + '.tmp%d' % os.getpid()
+                rc, out, err = sh(base + ['-c', src, '-o', tmp], timeout=3000)
+                if rc != 0:
+                    raise RuntimeError('compile failed for %s:\n%s' % (src, err[-4000:]))
+                os.rename(tmp, obj)
+            else:
+                os.utime(obj)
+            return obj
+        with ThreadPoolExecutor(max_workers=16) as ex:
+            objs = list(ex.map(one, sources))
+        # garbage-collect objects not touched for a day
+        now = time.time()
+        for f in glob.glob(os.path.join(odir, '*.o')):
+            if now - os.path.getmtime(f) > 86400:
+                try:
+                    os.remove(f)
+                except OSError:
+                    pass
+        return objs
+
+    LIBMP_SRC = ['src/format.cc', 'src/posix.cc', 'src/expr.cc', 'src/nl-reader.cc', 'src/option.cc', 'src/os.cc',
+                 'src/problem.cc', 'src/rstparser.cc', 'src/sol.cc', 'src/solver.cc', 'src/sp.cc', 'src/std_constr.cc',
+                 'src/utils_file.cc', 'src/utils_string.cc', 'src/utils_clock.cc', 'src/mp/flat/encodings.cpp',
+                 'src/mp/flat/piecewise_linear.cpp', 'src/expr-info.cc']
+    LIBNLW2_SRC = ['nl-writer2/src/dtoa.cc', 'nl-writer2/src/nl-model-c.cc', 'nl-writer2/src/nl-solver-c.cc',
+                   'nl-writer2/src/nl-solver.cc', 'nl-writer2/src/nl-utils.cc', 'nl-writer2/src/nl-writer2.cc']
+
+    def libmp_objects(self, flags=('-O1', '-g')):
+        """objects of the mp library (as in CMake target `mp`) built from the current tree"""
+        return self.objects([os.path.join(REPO, s) for s in self.LIBMP_SRC], flags=flags, tag='mp')
+
+    def libnlw2_objects(self, flags=('-O1', '-g')):
+        return self.objects([os.path.join(REPO, s) for s in self.LIBNLW2_SRC], flags=flags, tag='nlw2')
+
+    def link(self, name, objs, flags=(), libs=('-ldl',), cxx='g++'):
+        os.makedirs(os.path.join(BUILD, 'bin'), exist_ok=True)
+        h = hashlib.sha256((' '.join(objs) + ' '.join(flags) + ' '.join(libs)).encode()).hexdigest()[:16]
+        exe = os.path.join(BUILD, 'bin', '%s-%s' % (name, h))
+        if not os.path.exists(exe):
+            for old in glob.glob(os.path.join(BUILD, 'bin', name + '-*')):
+                try:
+                    os.remove(old)
+                except OSError:
+                    pass
+            tmp = exe + '.tmp%d' % os.getpid()
+            rc, out, err = sh([cxx] + list(flags) + list(objs) + ['-o', tmp] + list(libs), timeout=1800)
+            if rc != 0:
+                raise RuntimeError('link failed for %s:\n%s' % (name, err[-4000:]))
+            os.rename(tmp, exe)
+        return exe
+
     # ---------------------------------------------------------------- verdicts
     def add_violation(self, sig, what, replay, found_input=True):
         """sig: short stable signature of the failing input class (matched against known_findings.json)"""
